@@ -10,8 +10,8 @@ ID = 'C07'
 NSHARDS = dict(quick=8, thorough=16)
 BUDGET = dict(quick=8000, thorough=400000)
 ANCHORS = ['numdifftools.extrapolation:Richardson._r_matrix', 'numdifftools.extrapolation:Richardson.rule',
-           'numdifftools.extrapolation:Richardson.__call__', 'numdifftools.extrapolation:convolve',
-           'numdifftools.extrapolation:Richardson._estimate_error']
+           'numdifftools.extrapolation:Richardson.__call__', 'numdifftools.extrapolation:Richardson._estimate_error']
+ALSO_WATCHED = ['numdifftools.extrapolation:convolve']          # (a helper: observed while it is what applies the rule)
 MIN_COUNTERS = dict(quick={'moments_asserted': 3000, 'slots_asserted': 10000, 'column_independence_asserted': 1000,
                            'short_sequence_cases': 300, 'complex_ratio_cases': 800,
                            'object_reused_after_other_length': 2500},
@@ -37,7 +37,7 @@ def setup(ctx, mon):
         ctx.count('convolve_origin=%s' % (kw.get('origin'),))
         if np.iscomplexobj(retval):
             ctx.count('convolve_complex_branch')
-    for a in ANCHORS:
+    for a in ANCHORS + ALSO_WATCHED:
         mon.watch(a, on_return=on_conv if a.endswith(':convolve') else None)
 
 
@@ -186,6 +186,13 @@ def run_case(case, ctx):
     one_d = case['ncols'] == 0
     s_in = seq[:, 0].copy() if one_d else seq.copy()
     h_in = steps[:, 0].copy() if one_d else steps.copy()
+    if not one_d and ncols > 1 and N > 1 and case['seed'] % 3 == 2:
+        # the same logical arrays in column-major memory (np.asfortranarray, or a transposed view of the columns stacked as rows)
+        if case['seed'] % 2:
+            s_in, h_in = np.asfortranarray(s_in), np.asfortranarray(h_in)
+        else:
+            s_in, h_in = np.array([s_in[:, c_] for c_ in range(ncols)]).T, np.array([h_in[:, c_] for c_ in range(ncols)]).T
+        ctx.count('sequences_in_column_major_memory')
     s_keep, h_keep = s_in.copy(), h_in.copy()
     try:
         out, abserr, hout = rich(s_in, h_in)
